@@ -157,9 +157,14 @@ var errCatalogue = []errCall{
 	{"Cursor.Date(invalid date string)", "", func(f *errFile) error { _, err := pdf.NewCursor(f.rd).Date(f.badDate); return err }},
 	{"Cursor.Rectangle(integer)", "", func(f *errFile) error { _, err := pdf.NewCursor(f.rd).Rectangle(f.integer); return err }},
 	// the caller adds its location with the exported pdf.Wrap, as the library's own decoders do
-	{"Cursor.Date(invalid date string), wrapped by the caller with pdf.Wrap", "error-sentinel:errNoDate+Wrap", func(f *errFile) error {
+	{"Cursor.Date(invalid date string), wrapped by the caller with pdf.Wrap", "", func(f *errFile) error {
 		_, err := pdf.NewCursor(f.rd).Date(f.badDate)
 		return pdf.Wrap(err, "ModDate")
+	}},
+	// the sentinel reached through fmt.Errorf("%w") before the caller-side Wrap
+	{"Cursor.Date(invalid date string), wrapped with fmt.Errorf(%w) and then with pdf.Wrap", "", func(f *errFile) error {
+		_, err := pdf.NewCursor(f.rd).Date(f.badDate)
+		return pdf.Wrap(fmt.Errorf("info dict: %w", err), "ModDate")
 	}},
 	{"Reader.Get(object-stream member, false), wrapped by the caller with pdf.Wrap", "", func(f *errFile) error {
 		_, err := f.rd.Get(f.member, false)
